@@ -15,3 +15,12 @@ func verifCanClone(dstFile, srcFile string) (bool, bool) { return false, false }
 func verifCloneRange(dst, src *os.File, srcOffset, srcLength, dstOffset uint64) (error, bool) {
 	return nil, false
 }
+
+// verifAtomicBegin / verifAtomicEnd bracket one non-blocking channel operation of the parallel
+// chunker so that the verification harness can record a linearized trace of them; verifTrace
+// records a single event. All are no-ops unless built with the 'verif' tag.
+func verifAtomicBegin() {}
+
+func verifAtomicEnd(ev string, a, b, c uint64) {}
+
+func verifTrace(ev string, a, b, c uint64) {}
